@@ -254,14 +254,14 @@ class Model:
         return d + "/" + hidden + self.data_suffix
 
     # ---------------------------------------------------------------- search ground truth
-    @staticmethod
-    def is_simple_star(search):
+    def is_simple_star(self, search):
+        """Only literals and '*' as whole segments; no alias name (aliases are syntax, not values)."""
         if "?" in search or not search:
             return False
         for seg in search.split("/"):
             if seg == "*":
                 continue
-            if not SAFE_NAME.match(seg):
+            if not SAFE_NAME.match(seg) or seg in self.alias:
                 return False
         return True
 
